@@ -8,6 +8,7 @@
 -/
 import GraphiqModel.Model.Compare
 import GraphiqModel.Proofs.Export
+import GraphiqModel.Model.Tableau
 namespace Graphiq.Compare
 open Graphiq Graphiq.Export
 
@@ -364,5 +365,105 @@ theorem flat_identity_in_place (pre post : List Op) (q : QReg) :
   simp only [flat_append]
   have : flat [Op.one .I q] = [] := by simp [flat, Op.unwrap, Op.isIdentity]
   rw [this, List.append_nil]
+
+/-! ## Part 5: reflexivity of the coded check; compiled states of the unitary witnesses (verified tableau semantics) -/
+
+theorem nodeMatch_refl (a : NOp) : nodeMatch a a = true := by
+  cases a with
+  | input w => cases w with | mk t i => cases t <;> simp [nodeMatch]
+  | output w => cases w with | mk t i => cases t <;> simp [nodeMatch]
+  | gate o => cases o <;> simp [nodeMatch]
+
+theorem edgeMatch_refl (es : List Edge) : edgeMatch es es = true := by
+  cases es <;> simp [edgeMatch]
+
+def idMapOf (g : MG) : List (Nd × Nd) := g.nodes.map fun p => (p.1, p.1)
+
+theorem applyMap_id (g : MG) (n : Nd) (h : n ∈ g.nodes.map (·.1)) : applyMap (idMapOf g) n = some n := by
+  unfold applyMap idMapOf
+  obtain ⟨p, hp, rfl⟩ := List.mem_map.1 h
+  cases hf : (g.nodes.map fun p => (p.1, p.1)).find? (fun q => q.1 == p.1) with
+  | none =>
+    exfalso
+    have := List.find?_eq_none.1 hf (p.1, p.1) (List.mem_map_of_mem hp)
+    simp at this
+  | some q =>
+    have hq := List.find?_some hf
+    have hm := List.mem_of_find?_eq_some hf
+    obtain ⟨r, _, hr⟩ := List.mem_map.1 hm
+    simp only [beq_iff_eq] at hq
+    subst hr
+    simp only [Option.map_some]
+    exact congrArg some hq
+
+/-- **the coded isomorphism check is reflexive**: for any DAG with distinct node names in which every node carries an
+    operation, the identity map passes `isoCheck` (so `networkx.is_isomorphic`, which decides existence, answers True
+    for a circuit and its copy) -/
+theorem isoCheck_refl (g : MG) (hnd : nodupNd (g.nodes.map (·.1)) = true)
+    (hop : ∀ n ∈ g.nodes.map (·.1), (g.opOf n).isSome = true) : isoCheck g g (idMapOf g) = true := by
+  have himg : (g.nodes.map (·.1)).map (applyMap (idMapOf g)) = (g.nodes.map (·.1)).map some := by
+    apply List.map_congr_left
+    intro n hn
+    exact applyMap_id g n hn
+  have hfm : ((g.nodes.map (·.1)).map some).filterMap id = g.nodes.map (·.1) := by
+    rw [List.filterMap_map]
+    have : (id ∘ some : Nd → Option Nd) = some := rfl
+    rw [this, List.filterMap_some]
+  unfold isoCheck
+  simp only [himg, hfm, beq_self_eq_true, Bool.true_and, hnd, Bool.and_eq_true, List.all_eq_true]
+  refine ⟨⟨⟨⟨?_, trivial⟩, ?_⟩, ?_⟩, ?_⟩
+  · intro o ho
+    obtain ⟨n, _, rfl⟩ := List.mem_map.1 ho
+    rfl
+  · intro n hn
+    simpa using hn
+  · intro n hn
+    rw [applyMap_id g n hn]
+    have := hop n hn
+    cases ho : g.opOf n with
+    | none => rw [ho] at this; cases this
+    | some a => simp only [ho, nodeMatch_refl]
+  · intro u hu v hv
+    rw [applyMap_id g u hu, applyMap_id g v hv]
+    simp [edgeMatch_refl]
+
+/-! ### compiled states of the unitary witness pairs in the tableau model of C07 -/
+
+/-- index of a quantum register in the compiled state: photons first, then emitters (`reg_to_index_func`) -/
+def qIndex (np : Nat) (q : QReg) : Nat := match q.t with | .p => q.i | .e => np + q.i
+
+/-- the tableau operation of a unitary circuit operation (after flattening) -/
+def tabOp (np : Nat) : Op → Option Tab.Op
+  | .one .H q => some (.h (qIndex np q)) | .one .X q => some (.x (qIndex np q)) | .one .Y q => some (.y (qIndex np q))
+  | .one .Z q => some (.z (qIndex np q)) | .one .S q => some (.s (qIndex np q)) | .one .Sdg q => some (.sdg (qIndex np q))
+  | .ctrl .CNOT a b => some (.cnot (qIndex np a) (qIndex np b))
+  | .ctrl .CZ a b => some (.cz (qIndex np a) (qIndex np b))
+  | _ => none
+
+/-- compile a unitary circuit from |0…0⟩ with the verified tableau gates -/
+def compileU (c : Circuit) : Option Tab :=
+  match (flat c.ops).mapM (tabOp c.np) with
+  | none => none
+  | some ops => match (Tab.ket0 (c.ne + c.np)).runOps ops with
+    | .ok t => some t.norm
+    | .error _ => none
+
+/-- is the signed Pauli `p` in the group generated by the two stabilizer rows of a 2-qubit tableau? -/
+def inGroup2 (t : Tab) (p : PRow) : Bool :=
+  let g1 := t.row 2
+  let g2 := t.row 3
+  PRow.beqOn 2 p PRow.one || PRow.beqOn 2 p g1 || PRow.beqOn 2 p g2 || PRow.beqOn 2 p (PRow.mul 2 g1 g2)
+
+/-- same stabilizer state (2 qubits): every generator of one is in the group of the other -/
+def sameState2 (t1 t2 : Tab) : Bool :=
+  inGroup2 t2 (t1.row 2) && inGroup2 t2 (t1.row 3) && inGroup2 t1 (t2.row 2) && inGroup2 t1 (t2.row 3)
+
+/-- exchange the two qubits (the only non-trivial renaming of two emitters) -/
+def swapQubits (t : Tab) : Tab := (t.swapGate 0 1).norm
+
+def statesDiffer2 (c1 c2 : Circuit) : Bool :=
+  match compileU c1, compileU c2 with
+  | some t1, some t2 => !sameState2 t1 t2 && !sameState2 t1 (swapQubits t2)
+  | _, _ => false
 
 end Graphiq.Compare
